@@ -109,6 +109,7 @@ pub fn install_hook() {
             eprintln!("{}", std::backtrace::Backtrace::force_capture());
             return;
         }
+        let prev = crate::alloc::suspend();
         let key = format!("{location}|{}", normalise(&msg));
         let func = FUNC_CACHE.with(|c| {
             let mut c = c.borrow_mut();
@@ -121,6 +122,7 @@ pub fn install_hook() {
             }
         });
         LAST.with(|l| *l.borrow_mut() = Some(PanicInfo { msg, location, func }));
+        crate::alloc::resume(prev);
     }));
 }
 
